@@ -13,18 +13,19 @@
    n has a TTL index on a field f with expiry e and d holds, at f or as an
    element of the array at f, a date u < now - e.
 
-   Hypotheses of the catalog-level theorems (invariants of reachable states):
+   Hypotheses of the catalog-level theorems:
      cat_wf        one entry per handle (the Go catalog is a map)
-     cat_inv       every namespace satisfies the collection invariant coll_inv
+     cat_colls_ok  every namespace satisfies the collection invariant coll_inv
      oplog_no_ttl  local.oplog has no TTL index (it has no index at all)
-     cat_fields_ok no TTL index is on a field whose name starts with `$`
-   The last one is NOT an invariant of lungo: it accepts such index keys
-   (MongoDB rejects them) and every pass then fails — see
-   C19_txn_expire_exact_refuted; the theorems carrying it are the `_partial`
-   form of DEV.md. *)
+   All three follow from the catalog invariant CatInv.cat_inv, which holds of
+   every catalog visible in every reachable state (Proofs/HistoryInv.v): the
+   C19_reachable_* theorems have no hypothesis beyond reachability.
+   That the field of a TTL index is never an operator name follows from
+   coll_inv (CreateIndex rejects `$`-prefixed key segments since 8b15f6d; it
+   did not before — the former finding C19:dollar-field-ttl-index-blocks-expiry). *)
 From Coq Require Import List ZArith String.
 From Lungo.Model Require Import Txn Match Driver.
-From Lungo.Proofs Require Import MatchLaws SortProofs IndexInv CollInv ExpireProofs ExpireExamples.
+From Lungo.Proofs Require Import MatchLaws SortProofs IndexInv CollInv HistoryInv ExpireProofs ExpireExamples ExpireHistory.
 Import ListNotations.
 Open Scope Z_scope.
 
@@ -65,6 +66,19 @@ Theorem C19_expiredb_is_expired :
 Proof. exact expiredb_iff. Qed.
 Print Assumptions C19_expiredb_is_expired.
 
+(* under the collection invariant the field of a TTL index is not an operator
+   name, so the query above is a disjunction of field conditions *)
+Theorem C19_coll_inv_ttl_fields_ok :
+  forall n, coll_inv Match n -> ttl_fields_ok n.
+Proof. exact coll_inv_ttl_fields_ok. Qed.
+Print Assumptions C19_coll_inv_ttl_fields_ok.
+
+Theorem C19_expire_query_decides_inv :
+  forall now n d, coll_inv Match n -> has_ttl n ->
+    Match d (expire_query now n) = Ok (expiredb now n d).
+Proof. exact expire_query_decides_inv. Qed.
+Print Assumptions C19_expire_query_decides_inv.
+
 (* a TTL index has exactly one key field *)
 Theorem C19_ttl_index_single_field :
   forall n f e, coll_inv Match n -> ttl_index n f e ->
@@ -77,7 +91,7 @@ Print Assumptions C19_ttl_index_single_field.
 
 Theorem C19_expire_removes_exactly :
   forall now n,
-    coll_inv Match n -> ttl_fields_ok n -> has_ttl n ->
+    coll_inv Match n -> has_ttl n ->
     exists n', coll_delete Match n (expire_query now n) None 0 0
                = (n', inl (mkResult (removed now n) [] None [])) /\
                expire_ns now n n'.
@@ -86,7 +100,7 @@ Print Assumptions C19_expire_removes_exactly.
 
 Theorem C19_expire_keeps_iff :
   forall now n n' r,
-    coll_inv Match n -> ttl_fields_ok n -> has_ttl n ->
+    coll_inv Match n -> has_ttl n ->
     coll_delete Match n (expire_query now n) None 0 0 = (n', inl r) ->
     (forall sd, In sd (c_docs n') <-> In sd (c_docs n) /\ ~ expired now n (snd sd)) /\
     (forall sd, In sd (r_matched r) <-> In sd (c_docs n) /\ expired now n (snd sd)) /\
@@ -97,7 +111,7 @@ Print Assumptions C19_expire_keeps_iff.
 
 Theorem C19_expire_logs_deletes :
   forall now w h,
-    coll_inv Match (w_ns w) -> ttl_fields_ok (w_ns w) -> has_ttl (w_ns w) ->
+    coll_inv Match (w_ns w) -> has_ttl (w_ns w) ->
     let n := w_ns w in
     let m := len (removed now n) in
     exists n',
@@ -125,16 +139,16 @@ Print Assumptions C19_delete_events_shape.
 
 (* ---- the whole catalog -------------------------------------------------- *)
 
-Theorem C19_txn_expire_exact_partial :
+Theorem C19_txn_expire_exact :
   forall now c g,
-    cat_wf c -> cat_inv c -> cat_fields_ok c -> oplog_no_ttl c ->
+    cat_wf c -> cat_colls_ok c -> oplog_no_ttl c ->
     exists c' g', txn_expire Match c g now = (c', g', inl tt) /\ expire_post now c g c' g'.
 Proof. exact txn_expire_exact. Qed.
-Print Assumptions C19_txn_expire_exact_partial.
+Print Assumptions C19_txn_expire_exact.
 
 Theorem C19_txn_expire_docs :
   forall now c g c' g' r,
-    cat_wf c -> cat_inv c -> cat_fields_ok c -> oplog_no_ttl c ->
+    cat_wf c -> cat_colls_ok c -> oplog_no_ttl c ->
     txn_expire Match c g now = (c', g', r) ->
     r = inl tt /\
     forall h n, h <> oplog_handle -> ns_get (cat_ns c) h = Some n ->
@@ -157,7 +171,7 @@ Print Assumptions C19_events_of_shape.
 
 Theorem C19_non_ttl_untouched :
   forall now c g c' g' r,
-    cat_wf c -> cat_inv c -> cat_fields_ok c -> oplog_no_ttl c ->
+    cat_wf c -> cat_colls_ok c -> oplog_no_ttl c ->
     txn_expire Match c g now = (c', g', r) ->
     forall h n, h <> oplog_handle -> ns_get (cat_ns c) h = Some n -> ~ has_ttl n ->
       ns_get (cat_ns c') h = Some n.
@@ -166,7 +180,7 @@ Print Assumptions C19_non_ttl_untouched.
 
 Theorem C19_unexpired_ns_untouched :
   forall now c g c' g' r,
-    cat_wf c -> cat_inv c -> cat_fields_ok c -> oplog_no_ttl c ->
+    cat_wf c -> cat_colls_ok c -> oplog_no_ttl c ->
     txn_expire Match c g now = (c', g', r) ->
     forall h n, h <> oplog_handle -> ns_get (cat_ns c) h = Some n ->
       (forall sd, In sd (c_docs n) -> ~ expired now n (snd sd)) ->
@@ -176,7 +190,7 @@ Print Assumptions C19_unexpired_ns_untouched.
 
 Theorem C19_expire_noop_unchanged :
   forall now c g,
-    cat_wf c -> cat_inv c -> cat_fields_ok c -> oplog_no_ttl c ->
+    cat_wf c -> cat_colls_ok c -> oplog_no_ttl c ->
     (forall h n, ns_get (cat_ns c) h = Some n ->
        forall sd, In sd (c_docs n) -> ~ expired now n (snd sd)) ->
     txn_expire Match c g now = (c, g, inl tt).
@@ -185,7 +199,7 @@ Print Assumptions C19_expire_noop_unchanged.
 
 Theorem C19_expire_changed_removed :
   forall now c g c' g' r,
-    cat_wf c -> cat_inv c -> cat_fields_ok c -> oplog_no_ttl c ->
+    cat_wf c -> cat_colls_ok c -> oplog_no_ttl c ->
     txn_expire Match c g now = (c', g', r) -> c' <> c ->
     exists h n sd, ns_get (cat_ns c) h = Some n /\ In sd (c_docs n) /\ expired now n (snd sd).
 Proof. exact expire_changed_removed. Qed.
@@ -218,26 +232,61 @@ Theorem C19_expire_seconds_cutoff :
 Proof. exact expire_seconds_cutoff. Qed.
 Print Assumptions C19_expire_seconds_cutoff.
 
-(* ---- the finding -------------------------------------------------------- *)
+(* ---- over histories ----------------------------------------------------- *)
 
-(* without cat_fields_ok the statement is false: a reachable catalog (built by
-   CreateIndex + Insert) with a TTL index on "$x" in one collection and an
-   expired document in another; the pass fails and removes nothing *)
-Theorem C19_txn_expire_exact_refuted :
-  exists now c g,
-    cat_wf c /\ cat_inv c /\ oplog_no_ttl c /\
-    (exists h n sd, ns_get (cat_ns c) h = Some n /\ In sd (c_docs n) /\ expired now n (snd sd)) /\
-    ~ (exists c' g', txn_expire Match c g now = (c', g', inl tt) /\ expire_post now c g c' g') /\
-    txn_expire Match c g now = (c, g, inr EErr).
-Proof. exact txn_expire_exact_refuted. Qed.
-Print Assumptions C19_txn_expire_exact_refuted.
+(* the hypotheses follow from the catalog invariant ... *)
+Theorem C19_cat_inv_expire_hyps :
+  forall c n, CatInv.cat_inv Match c n -> cat_wf c /\ cat_colls_ok c /\ oplog_no_ttl c.
+Proof. exact cat_inv_expire_hyps. Qed.
+Print Assumptions C19_cat_inv_expire_hyps.
+
+(* ... which holds of the committed catalog and of the catalog of every open
+   session transaction in every state reachable by any history of driver
+   calls, for any update / extract / projection semantics: there a TTL pass
+   always succeeds and leaves exactly what expire_post describes *)
+Theorem C19_reachable_expire_exact :
+  forall applyf extractf projectf now calls c g now_ms,
+    visible_cat (fst (run Match applyf extractf projectf now d_init calls)) c ->
+    exists c' g', txn_expire Match c g now_ms = (c', g', inl tt) /\ expire_post now_ms c g c' g'.
+Proof. exact reachable_expire_exact. Qed.
+Print Assumptions C19_reachable_expire_exact.
+
+Theorem C19_reachable_expire_noop :
+  forall applyf extractf projectf now calls c g now_ms,
+    visible_cat (fst (run Match applyf extractf projectf now d_init calls)) c ->
+    (forall h n, ns_get (cat_ns c) h = Some n ->
+       forall sd, In sd (c_docs n) -> ~ expired now_ms n (snd sd)) ->
+    txn_expire Match c g now_ms = (c, g, inl tt).
+Proof. exact reachable_expire_noop. Qed.
+Print Assumptions C19_reachable_expire_noop.
+
+Theorem C19_reachable_non_ttl_untouched :
+  forall applyf extractf projectf now calls c g now_ms c' g' r,
+    visible_cat (fst (run Match applyf extractf projectf now d_init calls)) c ->
+    txn_expire Match c g now_ms = (c', g', r) ->
+    forall h n, h <> oplog_handle -> ns_get (cat_ns c) h = Some n -> ~ has_ttl n ->
+      ns_get (cat_ns c') h = Some n.
+Proof. exact reachable_non_ttl_untouched. Qed.
+Print Assumptions C19_reachable_non_ttl_untouched.
+
+(* the driver call (Begin(lock) / Expire / Commit on the committed catalog) *)
+Theorem C19_reachable_expire_step :
+  forall applyf extractf projectf now calls now_ms,
+    let ds := fst (run Match applyf extractf projectf now d_init calls) in
+    token_held ds = false ->
+    exists c' g',
+      step Match applyf extractf projectf now ds (CExpire now_ms)
+        = (mkD c' g' (ds_sessions ds), ROk) /\
+      expire_post now_ms (ds_cat ds) (ds_gen ds) c' g'.
+Proof. exact reachable_expire_step. Qed.
+Print Assumptions C19_reachable_expire_step.
 
 (* ---- non-vacuity (vm_compute, Proofs/ExpireExamples.v) ------------------ *)
 
 (* the hypotheses hold of a catalog built by the operations: db.c with a TTL
    index {a: 1} of 3600 s next to the non-TTL index {k: 1}, db.d with the
    non-TTL index {a: 1} *)
-Example C19_ex_hypotheses : cat_wf cat0 /\ cat_inv cat0 /\ cat_fields_ok cat0 /\ oplog_no_ttl cat0.
+Example C19_ex_hypotheses : cat_wf cat0 /\ cat_colls_ok cat0 /\ oplog_no_ttl cat0.
 Proof. exact ex_hypotheses. Qed.
 
 (* documents: an old date, a new date, a number that looks like a date, a
@@ -290,3 +339,11 @@ Example C19_ex_zero_seconds_and_paths :
   map (fun e => snd (fst e)) (events_in c') =
     [VDoc [("_id", VInt32 1)]; VDoc [("_id", VInt32 3)]; VDoc [("_id", VInt32 4)]].
 Proof. exact ex_zero_seconds_and_paths. Qed.
+
+(* an index key with a `$`-prefixed field name (also in an inner segment) is
+   refused, so no collection built by the operations has one *)
+Example C19_ex_dollar_index_refused :
+  snd (coll_create_index Match (new_collection true) "" cf_ttl_dollar) = inr EErr /\
+  snd (coll_create_index Match (new_collection true) "" cf_ttl_inner_dollar) = inr EErr /\
+  build_coll [cf_ttl_dollar] [[("_id", VInt32 1)]] = None.
+Proof. exact ex_dollar_index_refused. Qed.
